@@ -6,12 +6,12 @@
                             should they differ -- only possible when a repair is undone and a flag of the model flips --
                             the case carries the set of alternatives instead), or unmodelled (oracle only)
      regress:<class>        the inputs of the classes that were found and repaired (hash-duplicate-key 0b86a90,
-                            key-string-collision 4c440c3, toplevel-address f21c703), now with the model's single prediction
+                            key-string-collision 4c440c3, toplevel-address f21c703, merge-filter-key-collision 41b5d94), now with the model's
+                            single prediction
      oracle-only            constructs outside the modelled fragment (fmt printing of maps, json_encode, dump, cycle,
                             in, include with a map, imported macros, date filter, struct-keyed maps): repetition oracle only
      known:<class>          nested-pointer (address text cannot be predicted: outputs are compared after masking
-                            hexadecimal numbers, and against the model's output with the address masked) and
-                            merge-filter-key-collision (the model gives the set of outputs over all oracle codes)
+                            hexadecimal numbers, and against the model's output with the address masked)
      date-exhaustive / date-random / date-escapes / date-filter   format strings with the model's conversion
    Every random choice comes from the one rng. *)
 open Util
@@ -473,8 +473,8 @@ let run ~seed ~tier oc =
   let dup_ctx = [ (b "m", m3); (b "s", VStr (b "x")) ] in
   List.iter (fun ns -> emit_model oc "regress:hash-duplicate-key" r dup_ctx ns) dup_templates;
   List.iter (fun m -> List.iter (fun ns -> emit_model oc "regress:key-string-collision" r [ (b "m", m) ] ns) collide_templates) [ iface_map; iface_map2 ];
-  (* filterMerge stores the entries under the string form of their keys in the order of MapKeys() *)
-  List.iter (fun m -> List.iter (fun ns -> emit_alts oc "known:merge-filter-key-collision" [ (b "m", m); (b "n", m3) ] ns) merge_collide_templates) [ iface_map; iface_map2 ];
+  (* repaired 41b5d94: filterMerge stores the entries under the string form of their keys in sorted key order *)
+  List.iter (fun m -> List.iter (fun ns -> emit_model oc "regress:merge-filter-key-collision" r [ (b "m", m); (b "n", m3) ] ns) merge_collide_templates) [ iface_map; iface_map2 ];
   (* an interface-keyed map without colliding key strings *)
   let iface_ok = VMap (MAny, [ (VInt (z_of_int 3), VStr (b "three")); (VStr (b "x"), VStr (b "ex")); (VInt (z_of_int 20), VStr (b "twenty")); (VStr (b "100"), VStr (b "s100")) ]) in
   List.iter (fun ns -> emit_model oc "fixed" r [ (b "m", iface_ok); (b "n", m3) ] ns) (collide_templates @ merge_collide_templates);
